@@ -86,7 +86,9 @@ impl Parse for JoinInputDefault {
             WRAPPER_DETERMINER,
         );
 
-        for _ in 0..4 {
+        loop {
+            let options_left = input.fork();
+
             if input.peek(keywords::futures_crate_path) {
                 input.parse::<keywords::futures_crate_path>()?;
                 let content;
@@ -125,6 +127,11 @@ impl Parse for JoinInputDefault {
                     return Err(input.error("lazy_branches specified twice"));
                 }
                 join.lazy_branches = Some(content.parse::<LitBool>()?.value);
+            }
+
+            // No option was consumed in this pass: the rest is branches and handler.
+            if options_left.cursor() == input.cursor() {
+                break;
             }
         }
 
